@@ -92,7 +92,7 @@ def units(tier):
             if dt and tier == 'quick' and ci % 3:
                 continue
             for sh in range(2 if tier == 'quick' else 8):
-                Lc = L - (1 if dt else 0) - (1 if tier == 'quick' and CONFIGS[ci][2] is not None else 0)
+                Lc = L - (2 if (dt and tier != 'quick') else (1 if dt else 0)) - (1 if CONFIGS[ci][2] is not None else 0)
                 out.append({'fam': 'top', 'cfg': ci, 'dt': dt, 'L': Lc, 'shard': [sh, 2 if tier == 'quick' else 8]})
     for ci in range(len(CONFIGS)):
         if tier == 'quick' and CONFIGS[ci][0] is None and CONFIGS[ci][1] is None:
